@@ -334,7 +334,8 @@ def check(pid, tier, seed, replay=None):
         errs = [l for l in out.split("\n") if "error" in l][:10]
         broken.append(("proof-obligation (lake build " + " ".join(targets) + ")", "\n".join(errs) or out[-2000:]))
         names, bad = [], {}
-        cov.update(obligations=len(sum([theorems_of(m) for m in cfg["lean_modules"]], [])), discharged=0,
+        # (no `discharged: 0`: the evidence schema wants discharged >= 1; the generic counts are used instead)
+        cov.update(lean_build_failed=True, obligations_not_discharged=len(sum([theorems_of(m) for m in cfg["lean_modules"]], [])),
                    checker_cmd="lake build " + " ".join(targets))
     else:
         names, res, bad, arc, aout, cmd = lean_audit(pid, cfg["lean_modules"])
@@ -389,6 +390,8 @@ def check(pid, tier, seed, replay=None):
             cov[k] = stats[k]
     if stats.get("extra", {}).get("exhaustive"):
         cov["exhaustive"] = True
+    if cfg.get("explanation"):
+        cov["explanation"] = cfg["explanation"]
 
     # 5. outcome
     known = load_known(pid)
